@@ -8,7 +8,7 @@ import copy
 from python_minifier.ast_annotation import add_parent
 from python_minifier.rename import add_namespace
 from harness.renamekern import trees_equal
-from vf.stubs import mod, patched, builtins_stubbed, deterministic_node_hash
+from vf.stubs import untraced, mod, patched, builtins_stubbed, deterministic_node_hash
 
 
 def prep(module):
@@ -183,6 +183,10 @@ def suite_kernel(which: int, pk: int, n: int, k0: int, k1: int, k2: int) -> bool
     pre: n > 0 or PARENT_KINDS[pk] == 'module'
     post: _
     """
+    return untraced(_suite_kernel_impl, which, pk, n, k0, k1, k2)
+
+
+def _suite_kernel_impl(which, pk, n, k0, k1, k2):
     # remove_pass / remove_asserts / remove_debug / remove_literal_statements on every suite shape
     kinds = _kinds(n, k0, k1, k2)
     real = prep(build_suite_program(pk, kinds))
@@ -287,6 +291,10 @@ def return_none_kernel(v0: int, v1: int, nested: bool, is_async: bool) -> bool:
     pre: 0 <= v0 <= 3 and 0 <= v1 <= 3
     post: _
     """
+    return untraced(_return_none_kernel_impl, v0, v1, nested, is_async)
+
+
+def _return_none_kernel_impl(v0, v1, nested, is_async):
     # `return None` -> `return`; a trailing bare return is dropped (a function body never becomes empty)
     vals = [None, 'none', 'name', 'zero']
 
@@ -461,6 +469,10 @@ def posargs_kernel(np: int, na: int) -> bool:
     pre: 0 <= np <= 2 and 0 <= na <= 2
     post: _
     """
+    return untraced(_posargs_kernel_impl, np, na)
+
+
+def _posargs_kernel_impl(np, na):
     def build():
         po = [ast.arg(arg='p%d' % i, annotation=None) for i in range(np)]
         ar = [ast.arg(arg='a%d' % i, annotation=None) for i in range(na)]
@@ -602,6 +614,10 @@ def gating(o_lit: bool, o_imp: bool, o_ann: bool, o_pass: bool, o_obj: bool, o_a
     """
     post: _
     """
+    return untraced(_gating_impl, o_lit, o_imp, o_ann, o_pass, o_obj, o_ass, o_dbg, o_ret, o_fold, o_exc, o_rl, o_rg, o_hoist, o_pos, tainted)
+
+
+def _gating_impl(o_lit, o_imp, o_ann, o_pass, o_obj, o_ass, o_dbg, o_ret, o_fold, o_exc, o_rl, o_rg, o_hoist, o_pos, tainted):
     # real minify() with every stage replaced by a recorder: a stage runs iff its option is on (and, for bracket
     # removal, hoisting and renaming, the module is not tainted), in the documented order, and no other stage runs
     import python_minifier
